@@ -11,8 +11,11 @@ booleans are 0/1.
   (`encodeBytes`), `encodeInt32`, `encodeBits`/`encodeBoolean`, `encodeDict`. The Go loops append
   to `dst` run by run; the mirror returns the list of runs (`Run`) in the same order and
   `serialize` writes each run the way `appendRunLength*` / `appendBitPacked*` do.
-  The bit packing kernels themselves (`encodeBytesBitpackDefault`, `bitpack.Pack`) are modelled as
-  LSB-first packing of the values masked to the bit width (`packBytes`), tied by L2 only.
+  Bit-packed payloads are written as `packBytes` (LSB-first packing of the values masked to the bit
+  width). For the levels kernel `encodeBytesBitpackDefault` this is a theorem about its
+  transliteration (`RleDecode.goEncodeBytesBitpack`, `levels_pack_kernel`); for int32 the kernel is
+  the third-party `bitpack.Pack` (streaming 64-bit accumulator), modelled as `packBytes` and tied
+  by L2 only. The Go DECODERS and their portable kernels are mirrored in `RleDecode.lean`.
 -/
 namespace PqModel.Rle
 open PqModel.Bits
